@@ -6,6 +6,7 @@ open AbtemVerif AbtemVerif.Proto AbtemVerif.Config
      Val    := `n:<int>` | `s:<text>` | `d:<count>` (`k:<key>` Val)^count
      Script := `snap` | `raise` | `poke k:<key> Val` | `del k:<key>` | `seq S S` | `try S`
              | `with <count> (A:<T|F kwarg?>:<key string> Val)^count S`
+             | `reenter <count> (A:…)^count S S`   (`s = set(…); with s: { with s: S1 ; S2 }`)
    reply   : `<ok|err:kind> <Val final cfg> log:<n> <Val>^n`  | `bad-op`
    request : `assign <Val dict> A:<T|F>:<key string> <Val>`  -> `ok <Val dict'> <replace|insert> <path k:..,..>` | `err:<kind>`
    request : `undo <Val dict> <replace|insert> <count> (k:<key>)^count <Val old>` -> `ok <Val>` | `err:<kind>` -/
@@ -77,6 +78,19 @@ partial def pScript : P Script
       let (as, ts) ← go n [] ts
       let (b, ts) ← pScript ts
       pure (.withSet as b, ts)
+  | "reenter" :: c :: ts => do
+      let n ← parseNat? c
+      let rec go2 (n : Nat) (acc : List (List Key × Val)) (ts : List String) : Option (List (List Key × Val) × List String) :=
+        match n with
+        | 0 => some (acc.reverse, ts)
+        | n + 1 => do
+            let (ks, ts) ← pAssignHead ts
+            let (v, ts) ← pVal ts
+            go2 n ((ks, v) :: acc) ts
+      let (as, ts) ← go2 n [] ts
+      let (b, ts) ← pScript ts
+      let (a, ts) ← pScript ts
+      pure (.reenter as b a, ts)
   | _ => none
 
 partial def showVal : Val → String
